@@ -60,6 +60,7 @@ func (f *factory) CreateDiscovery(prefix string, listener Listener) Discovery {
 		ctx:      ctx,
 		cancel:   cancel,
 		listener: listener,
+		keys:     make(map[string]struct{}),
 		logger:   logger.GetLogger("Coordinator", "Discovery"),
 	}
 
@@ -81,6 +82,9 @@ type discovery struct {
 	prefix   string
 	repo     state.Repository
 	listener Listener
+	// keys reported to the listener and not deleted since, used when the watcher hands over what
+	// is stored under the prefix as a whole(EventTypeAll): what is missing there has been deleted.
+	keys map[string]struct{}
 
 	ctx    context.Context
 	cancel context.CancelFunc
@@ -102,6 +106,7 @@ func (d *discovery) Discovery(init bool) error {
 
 		// init exist resource.
 		for _, kv := range kvs {
+			d.keys[kv.Key] = struct{}{}
 			d.listener.OnCreate(kv.Key, kv.Value)
 		}
 	}
@@ -128,12 +133,29 @@ func (d *discovery) handlerResourceChange(eventCh state.WatchEventChan) {
 		switch event.Type {
 		case state.EventTypeDelete:
 			for _, kv := range event.KeyValues {
+				delete(d.keys, kv.Key)
 				d.listener.OnDelete(kv.Key)
 			}
-		case state.EventTypeModify, state.EventTypeAll:
-			// EventTypeAll is what the watcher stores under the prefix when it (re)starts; changes made between
-			// the initial list and that moment are in no other event.
+		case state.EventTypeModify:
 			for _, kv := range event.KeyValues {
+				d.keys[kv.Key] = struct{}{}
+				d.listener.OnCreate(kv.Key, kv.Value)
+			}
+		case state.EventTypeAll:
+			// EventTypeAll is what the watcher finds under the prefix when it (re)starts; changes made between
+			// the initial list(or the end of the previous watch) and that moment are in no other event.
+			exist := make(map[string]struct{}, len(event.KeyValues))
+			for _, kv := range event.KeyValues {
+				exist[kv.Key] = struct{}{}
+			}
+			for key := range d.keys {
+				if _, ok := exist[key]; !ok {
+					delete(d.keys, key)
+					d.listener.OnDelete(key)
+				}
+			}
+			for _, kv := range event.KeyValues {
+				d.keys[kv.Key] = struct{}{}
 				d.listener.OnCreate(kv.Key, kv.Value)
 			}
 		}
